@@ -653,6 +653,9 @@ func joinFiles(files map[string]string) []byte {
 
 func main() {
 	f := vh.ParseFlags()
+	if abs, err := filepath.Abs(f.Out); err == nil {
+		f.Out = abs
+	}
 	o := vh.NewOut(f.Out)
 	defer o.Close()
 	log.SetOutput(io.Discard)
